@@ -576,6 +576,28 @@ def h_misc(e, which):
     _check(e, prog_misc(e, which), 'misc:' + which)
 
 
+SOUP_PATTERNS = ['#1.#2', '#1.,#2', '#1..#2', '#1.#2,', '#1,.,#2', '#1#2.,', '.#1,']
+
+
+def h_soup(e, pat, n):
+    """the text after the macro is n characters, each a payload letter or one of the delimiter characters: every way the
+    actual text can interleave with pieces of the delimiters; a closing copy of every delimiter guarantees the use matches"""
+    params = T(pat)
+    body = {1: '(#1)', 2: '(#1|#2)'}[pat.count('#')]
+    toks = T('\\def\\mya') + params + [C('{')] + T(body) + [C('}')] + [CS('mya')]
+    k = 0
+    while k < len(params) and not is_c(params[k], '#'):
+        toks.append(params[k])
+        k += 1
+    for i in range(n):
+        c = e.char('s%d' % i, 44, 122)
+        e.assume(e.one_of(c, 'ab.,'))
+        toks.append(C(c))
+    closing = [t for t in params[k:] if not is_c(t, '#') and not (t[0] == 'c' and isinstance(t[1], str) and t[1].isdigit())]
+    toks += closing + T('yz') + closing + T('w')
+    _check(e, toks, 'soup')
+
+
 def def_combos(tier):
     out = []
     for pat in PATTERNS:
@@ -636,4 +658,6 @@ def jobs(tier, seed):
         J.append(dict(harness='h_misc', params=dict(which=w), label='misc ' + w, no_twin=True))
     for w in MISC2:
         J.append(dict(harness='h_misc2', params=dict(which=w), label='misc ' + w, no_twin=True))
+    for pat in SOUP_PATTERNS:
+        J.append(dict(harness='h_soup', params=dict(pat=pat, n=3 if q else 7), label='soup ' + pat, no_twin=pat != '#1.,#2'))
     return J
